@@ -1,0 +1,13 @@
+//go:build verif
+
+package mdns
+
+import "github.com/enbility/go-avahi"
+
+// VerifNewAvahiProvider returns an AvahiProvider that talks to the given Avahi
+// server implementation instead of the D-Bus one. Verification harness only.
+func VerifNewAvahiProvider(server avahi.ServerInterface, ifaces []int32) *AvahiProvider {
+	p := NewAvahiProvider(ifaces)
+	p.avServer = server
+	return p
+}
